@@ -47,8 +47,9 @@ namespace c01
         }
         static int depth_quick() { return 4; }
         static int depth_thorough() { return 5; }
+        static int leaf_sample_den(bool thorough) { return thorough ? 4 : 1; }
         static uint64_t random_quick() { return 2000; }
-        static uint64_t random_thorough() { return 200000; }
+        static uint64_t random_thorough() { return 100000; }
         static bool is_removal_or_move(int k) { return k != K_CREATE; }
         static int alphabet_of(int N, int L) { return K_COUNT * N * (N + L); }
 
@@ -441,10 +442,11 @@ namespace c01
             return p ? "unknown address" : "null";
         }
         // walks the ring that starts at `start` (a list head, or a node of a head-less ring)
-        Seq raw_walk(const igris::dlist_node *start, bool fwd, int l, int ring)
+        const Seq &raw_walk(const igris::dlist_node *start, bool fwd, int l, int ring)
         {
             const igris::dlist_node *e = start;
-            Seq out;
+            static Seq out;
+            out.clear();
             int budget = N + L + 2;
             const char *what = l >= 0 ? "list" : "headless ring";
             int idx = l >= 0 ? l : ring;
@@ -506,7 +508,8 @@ namespace c01
                 const XList &cli = li;
                 const std::list<int> &m = model[l];
                 size_t n = m.size();
-                Seq got;
+                static Seq got;
+                got.clear();
                 observing("iterator");
                 for (XList::iterator it = li.begin(); it != li.end(); ++it)
                     C01_COLLECT(it->id);
@@ -690,11 +693,12 @@ namespace c01
                 VF_OK("xdlist: destroying nodes and lists in any order keeps the survivors consistent");
             }
         }
-        Seq raw_walk_live(int l, bool fwd, const bool *alive)
+        const Seq &raw_walk_live(int l, bool fwd, const bool *alive)
         {
             // like raw_walk, but with lookup restricted to live lists (lists[] of dead ones is null)
             const igris::dlist_node *h = lists[l]->end().current, *e = h;
-            Seq out;
+            static Seq out;
+            out.clear();
             int budget = N + L + 2;
             for (;;)
             {
